@@ -1,0 +1,33 @@
+//go:build verif
+
+// Contracts for the writer helpers of package fu (property C12). Comments only.
+// All are `trusted`: thin wrappers over io.WriteString / fmt.Fprintf / Formatter.Format that panic on
+// a write error; they are the place where the ghost output `wout` (80_codec.spec) is defined.
+package fu
+
+//@ func WriteString(w, s)
+//@   trusted
+//@   assigns fresh-only
+//@   modifies wout
+//@   ensures wout == sconcat(old(wout), s)
+
+//@ func Write(w, b)
+//@   trusted
+//@   assigns fresh-only
+//@   modifies wout
+//@   ensures wout == sconcat(old(wout), bytesStr(row(b), b.off, len(b)))
+
+// Fprintf with one argument; `%d\` applied to an int is the offset prefix offRepr.
+//@ func Fprintf(w, format, a)
+//@   trusted
+//@   assigns fresh-only
+//@   modifies wout
+//@   ensures len(a) == 1 ==> wout == sconcat(old(wout), sprintf1(format, a[0]))
+//@   ensures pfx(old(wout), wout)
+//@   ensures (len(a) == 1 && format == "%d\\" && a[0] is int) ==> sprintf1(format, a[0]) == offRepr(a[0].(int))
+
+//@ func Format(i, f, verb)
+//@   trusted
+//@   assigns fresh-only
+//@   modifies wout
+//@   ensures pfx(old(wout), wout)
